@@ -17,7 +17,8 @@ HDR = "x-goog-request-params"
 PROFILE = grammar.profile(
     p_routing=0.55, p_http=0.85, p_get=0.9, p_list=0.6, p_update=0.6, p_delete=0.6, p_custom=0.7, p_create=0.5,
     p_sstream=0.35, p_cstream=0.3, p_stream_routing=0.8, p_routing_name_clash=0.25, p_bidi=0.0, p_lro=0.4, p_raw_op=0.1, p_service_config=0.8, p_yaml=0.05,
-    transports=["grpc", "grpc+rest", "grpc+rest"], p_additional_binding=0.4, p_multi_var_path=0.4, p_reserved_path_var=0.5, p_custom_http_pattern=0.3, p_double_star_path=0.25, p_deep_path_var=0.3)
+    transports=["grpc", "grpc+rest", "grpc+rest"], p_additional_binding=0.4, p_multi_var_path=0.4, p_reserved_path_var=0.5, p_custom_http_pattern=0.3, p_double_star_path=0.25, p_deep_path_var=0.3,
+    p_empty_routing=0.2, p_routing_shorthand=0.25, p_keyword_update_field=0.2)
 
 BUDGET = {
     "quick": {"worlds": 150, "runs": 80, "wall_cap": 300, "world_wall": 90},
@@ -26,7 +27,8 @@ BUDGET = {
 REQUIRED_PROBES = ["explicit_rule", "implicit_rule", "no_header_expected", "override_same_key", "nested_field",
                    "value_needs_escaping", "non_matching_value", "empty_value", "header_on_retry_attempt",
                    "header_on_later_page", "async_header", "extra_trailing_segments", "no_template_param", "rest_header", "rest_header_on_later_page", "header_on_lro",
-                   "header_on_sstream", "shared_metadata_list_later_call", "custom_http_pattern", "header_on_fetch_after_resume", "rest_connection_error_surfaced", "client_streaming_with_routing_annotation"]
+                   "header_on_sstream", "shared_metadata_list_later_call", "custom_http_pattern", "header_on_fetch_after_resume", "rest_connection_error_surfaced", "client_streaming_with_routing_annotation",
+                   "empty_routing_annotation", "keyword_path_segment", "routing_template_shorthand"]
 SEGS = ["p1", "my-proj", "a b", "é", "x%y", "k=v&z", "seg.1", "~t", "q+r", "UPPER"]
 
 
@@ -110,7 +112,7 @@ def match_template(t, value):
 def expected_params(spec, m, val):
     """Ordered mapping key -> value that AIP-4222 prescribes for request valuation ``val``."""
     out = {}
-    if m.get("routing"):
+    if m.get("routing") is not None:          # [] = present and empty: explicit routing with nothing to match
         for p in m["routing"]:
             v = values.get_path(val, p["field"])
             if not isinstance(v, str) or v == "":
@@ -155,7 +157,7 @@ def make_name(rng, pattern, mode):
 
 def routed_fields(spec, m):
     fields = []
-    if m.get("routing"):
+    if m.get("routing") is not None:
         fields = [p["field"] for p in m["routing"]]
     elif m.get("http"):
         fields = re.findall(r"\{([^}=]+)(?:=[^}]*)?\}", m["http"]["path"])
@@ -390,6 +392,12 @@ def judge(spec, scenario, history):
         got = dict(urllib.parse.parse_qsl(raw, keep_blank_values=True))
         n_pairs = len([x for x in raw.split("&") if x]) if raw else 0
         # probes
+        if m.get("routing") == []:
+            _bump(probes, "empty_routing_annotation")
+        if any("." in f and f.split(".")[0] in grammar.KEYWORD_MESSAGE_FIELDS for f in routed_fields(spec, m)):
+            _bump(probes, "keyword_path_segment")
+        if any(re.search(r"\{[^=}]+\}", p.get("path_template", "")) for p in m.get("routing") or []):
+            _bump(probes, "routing_template_shorthand")
         if m.get("routing"):
             _bump(probes, "explicit_rule")
             keys = [parse_template(p["path_template"])[0] if p.get("path_template") else p["field"] for p in m["routing"]]
@@ -438,7 +446,7 @@ def judge(spec, scenario, history):
             if op["kind"] == "paged" and e["n"] > 1:
                 _bump(probes, "rest_header_on_later_page")
         # verdict
-        if m.get("routing") and not want and hdrs:
+        if m.get("routing") is not None and not want and hdrs:
             return V("routing_header", f"attempt {e['n']} ({scenario['client']}) carried x-goog-request-params={hdrs!r} although no routing "
                      f"parameter matches: with a routing annotation NO header is sent when nothing matches (an empty one is still a header)")
         if got != want:
